@@ -106,6 +106,7 @@ func factsC04(r *Repo) []Fact {
 		}
 	}
 	out = append(out, boolFact("adaptorNamesMatch", okAd, "every derived form uses the adaptor named <target>By<Source>"))
+	out = append(out, factEmptyStream(cp), factDagGetEmptyStream(cp))
 	return out
 }
 
@@ -128,4 +129,78 @@ func assignOf(b *ast.BlockStmt) (string, string, string) {
 		}
 	}
 	return "", "", ""
+}
+
+// emptyStreamFromGeneric: the stream a node without data input is handed in stream mode.  The model
+// (Model/C04Graph.lean opsS, Model/C04Lazy.lean lazyOps) says: ONE chunk carrying the zero value, then EOF:
+//   var t T; sr, sw := schema.Pipe[T](1); sw.Send(t, nil); sw.Close(); return packStreamReader(sr)
+func factEmptyStream(cp *Pkg) Fact {
+	fd, file := cp.Func("", "emptyStreamFromGeneric")
+	if fd == nil || fd.Body == nil {
+		return unknownFact("emptyStreamIsOneZeroChunk", "Bool", "false", "compose/generic_helper.go", "emptyStreamFromGeneric not found")
+	}
+	var ss []string
+	for _, st := range fd.Body.List {
+		switch v := st.(type) {
+		case *ast.DeclStmt:
+			if gd, ok := v.Decl.(*ast.GenDecl); ok && gd.Tok == token.VAR && len(gd.Specs) == 1 {
+				vs := gd.Specs[0].(*ast.ValueSpec)
+				if len(vs.Names) == 1 && len(vs.Values) == 0 {
+					ss = append(ss, "var "+vs.Names[0].Name+" "+exprString(vs.Type))
+					continue
+				}
+			}
+			ss = append(ss, "?decl")
+		case *ast.AssignStmt:
+			var l, r []string
+			for _, e := range v.Lhs {
+				l = append(l, exprString(e))
+			}
+			for _, e := range v.Rhs {
+				r = append(r, exprString(e))
+			}
+			ss = append(ss, strings.Join(l, ",")+v.Tok.String()+strings.Join(r, ","))
+		case *ast.ExprStmt:
+			ss = append(ss, exprString(v.X))
+		case *ast.ReturnStmt:
+			var r []string
+			for _, e := range v.Results {
+				r = append(r, exprString(e))
+			}
+			ss = append(ss, "return "+strings.Join(r, ","))
+		default:
+			ss = append(ss, "?stmt")
+		}
+	}
+	want := []string{"var t T", "sr,sw:=schema.Pipe[T](1)", "sw.Send(t,nil)", "sw.Close()", "return packStreamReader(sr)"}
+	ok := len(ss) == len(want)
+	for i := range want {
+		ok = ok && i < len(ss) && ss[i] == want[i]
+	}
+	f := boolFact("emptyStreamIsOneZeroChunk", ok, "compose/"+file+" emptyStreamFromGeneric: "+strings.Join(ss, "; "))
+	return f
+}
+
+// dagChannel.get hands out ch.emptyStream() in stream mode and ch.zeroValue() in value mode when no value arrived
+func factDagGetEmptyStream(cp *Pkg) Fact {
+	fd, file := cp.Func("dagChannel", "get")
+	if fd == nil || fd.Body == nil {
+		return unknownFact("dagGetHandsOutEmptyStream", "Bool", "false", "compose/dag.go", "dagChannel.get not found")
+	}
+	found := false
+	ast.Inspect(fd.Body, func(n ast.Node) bool {
+		is, ok := n.(*ast.IfStmt)
+		if !ok || exprString(is.Cond) != "len(valueList)==0" || len(is.Body.List) != 2 {
+			return true
+		}
+		inner, ok1 := is.Body.List[0].(*ast.IfStmt)
+		ret, ok2 := is.Body.List[1].(*ast.ReturnStmt)
+		if ok1 && ok2 && exprString(inner.Cond) == "isStream" && len(inner.Body.List) == 1 && len(ret.Results) == 3 && exprString(ret.Results[0]) == "ch.zeroValue()" {
+			if r2, ok := inner.Body.List[0].(*ast.ReturnStmt); ok && len(r2.Results) == 3 && exprString(r2.Results[0]) == "ch.emptyStream()" && exprString(r2.Results[1]) == "true" {
+				found = true
+			}
+		}
+		return true
+	})
+	return boolFact("dagGetHandsOutEmptyStream", found, "compose/"+file+" dagChannel.get: no value arrived → ch.emptyStream() in stream mode, ch.zeroValue() otherwise")
 }
